@@ -266,8 +266,14 @@ def check_list_helper(res, g, fn):
             elif not sx.is_path(tail[1], loops and c.get('e', {}).get('args', [{}])[0].get('p')):
                 problems.append('returned span must be the loop span variable')
     res.inst(key, {'fn': 'list', 'shape': 'item (sep item)* with the span advanced only after sep+item both succeed'})
+    recognised = len([x for x in st if x['k'] == 'expr' and x['e'].get('k') == 'while']) == 1 and len(fn.params) == 2 and \
+        (txt and txt[0].replace(' ', '').startswith('let(%s,a)=' % fn.span_param))
     for p in problems:
-        res.fail(key + ':' + str(abs(hash(p)) % 1000 if False else problems.index(p)), where, 'list helper: ' + p)
+        if recognised:
+            res.fail(key + ':' + str(problems.index(p)), where, 'list helper: ' + p)
+        else:
+            res.undecided(key + ':shape', where, 'list helper is not in the while-let form the rule understands (%s)' % p)
+            break
 
 
 def run(ctx):
@@ -290,9 +296,7 @@ def run(ctx):
             check_list_helper(res, g, fn)
             n_fn += 1
             continue
-        out = fn.out_ty
-        uses_concat = any(sx.is_call(n, 'concat') for n in sx.walk(fn.item['body']))
-        if (out is not None and out.get('k') == 'path' and out['p'] in ('Locate', 'Span')) or uses_concat:
+        if getattr(owner, 'lexeme', False) or getattr(fn, 'lexeme', False):
             skipped_lexemes.append(fn.name)   # G2's domain
             # G3 still applies to terminated/preceded inside them (below)
             lexeme = True
@@ -305,6 +309,7 @@ def run(ctx):
         env = {}
         nchunk = 0
         ok = True
+        unm = False
         mapi = 0
         if not lexeme:
             for st in fn.stmts:
@@ -395,11 +400,11 @@ def run(ctx):
                                      '%s: %s' % (fn.name, b))
                             ok = False
                             continue
-                    res.fail('%s:%s:unmodelled-stmt:%s' % (g.crate, fn.name, sx.render(s)[:50]),
-                             '%s/%s:%s' % (g.crate, fn.file, s.get('l')),
-                             '%s: statement `%s` is outside the forms G1 understands (fail closed)' %
-                             (fn.name, sx.render(s)[:80]))
+                    res.undecided('%s:%s:unmodelled-stmt:%s' % (g.crate, fn.name, sx.render(s)[:50]),
+                                  '%s/%s:%s' % (g.crate, fn.file, s.get('l')),
+                                  '%s: statement `%s` is outside the forms G1 understands' % (fn.name, sx.render(s)[:80]))
                     ok = False
+                    unm = True
             # tail
             t = fn.tail
             if t[0] == 'ok':
@@ -416,7 +421,10 @@ def run(ctx):
                                                                    (' (dropped: #%s)' % missing) if missing else ''),
                                  {'bound': [sx.render(s[2]) for s in fn.stmts if s[0] == 'bind'], 'result': sx.render(t[2])[:200]})
                 except Bad as b:
-                    res.fail('%s:%s:construct' % (g.crate, fn.name), where, '%s: %s' % (fn.name, b))
+                    if unm:
+                        res.undecided('%s:%s:construct' % (g.crate, fn.name), where, '%s: %s (after a statement G1 does not model)' % (fn.name, b))
+                    else:
+                        res.fail('%s:%s:construct' % (g.crate, fn.name), where, '%s: %s' % (fn.name, b))
                 res.inst('%s:body' % fn.name, {'fn': fn.name, 'outputs': nchunk, 'result': sx.render(t[2])[:100]} if nchunk >= 4 else None)
             elif t[0] == 'apply':
                 if not sx.is_path(t[2], cur):
@@ -432,9 +440,9 @@ def run(ctx):
             elif t[0] == 'ifelse':
                 res.inst('%s:body' % fn.name)
             else:
-                res.fail('%s:%s:unmodelled-tail' % (g.crate, fn.name), where,
-                         '%s: result expression `%s` is outside the forms G1 understands (fail closed)' %
-                         (fn.name, sx.render(t[1])[:80] if len(t) > 1 and t[1] else t[0]))
+                res.undecided('%s:%s:unmodelled-tail' % (g.crate, fn.name), where,
+                              '%s: result expression `%s` is outside the forms G1 understands' %
+                              (fn.name, sx.render(t[1])[:80] if len(t) > 1 and isinstance(t[1], dict) else t[0]))
         # ---------------- (d) map closures, G3 terminated/preceded — in every pexpr of the body
         irs = [s[3] for s in fn.stmts if s[0] == 'bind'] + [s[2] for s in fn.stmts if s[0] == 'applylet']
         if fn.tail and fn.tail[0] == 'apply':
@@ -469,10 +477,9 @@ def run(ctx):
                                  '%s: combinator `%s` replaces or drops parser output; not an accepted construction form'
                                  % (fn.name, node['op']))
                 elif node['op'] == 'unmodelled':
-                    res.fail('%s:%s:unmodelled:%s' % (g.crate, fn.name, node['text'][:40]),
-                             '%s/%s:%s' % (g.crate, fn.file, node.get('l')),
-                             '%s: parser expression `%s` is outside the modelled combinator vocabulary (fail closed)'
-                             % (fn.name, node['text'][:80]))
+                    res.undecided('%s:%s:unmodelled:%s' % (g.crate, fn.name, node['text'][:40]),
+                                  '%s/%s:%s' % (g.crate, fn.file, node.get('l')),
+                                  '%s: parser expression `%s` is outside the modelled combinator vocabulary' % (fn.name, node['text'][:80]))
     res.floor('parser_and_helper_bodies', n_fn, 1180)
     res.floor('map_closures', res.counts.get('map_closures', 0), 690)
     res.counts['sequence_steps'] = n_seq
